@@ -358,11 +358,27 @@ class FuncFlow:
     def loop_body_nodes(self, head: Node) -> set[Node]:
         """Nodes of the loop of a for / while header: reachable from the body entry without
         passing the head, and able to reach the head again."""
+        cache = self.__dict__.setdefault("_loop_bodies", {})
+        if head in cache:
+            return cache[head]
+        # natural loop of the header: the nodes from which a back edge (an edge into the head from a node the head
+        # dominates) can be reached without passing the head. A `while True:` whose every path breaks has no back edge and
+        # therefore no loop body - the nodes of an *enclosing* loop are not mistaken for it.
+        dom = self.__dict__.get("_dom_cache")
+        if dom is None:
+            dom = self.cfg.dominators()
+            self.__dict__["_dom_cache"] = dom
         body: set[Node] = set()
-        for s, lab in head.succ:
-            if lab in ("iter", "T"):
-                fwd = self.cfg.reachable_from(s, avoid={head})
-                body |= {m for m in fwd if head in self.cfg.reachable_from(m)}
+        work = [p for p, _lab in head.pred if head in dom.get(p, set()) and p is not head]
+        if any(p is head for p, _lab in head.pred):
+            body.add(head)
+        while work:
+            n = work.pop()
+            if n in body or n is head:
+                continue
+            body.add(n)
+            work.extend(p for p, _lab in n.pred)
+        cache[head] = body
         return body
 
     def loop_carried(self, head: Node) -> set[str]:
